@@ -440,6 +440,20 @@ fn random_zone(rng: &mut Rng, em: &mut Emitter, thorough: bool) {
         interesting.push(owner.clone());
         adds.push(Add { owner, rtype, class: cls, ttl, rdata });
     }
+    // C21 corner cases that random choice rarely produces: a second apex SOA, two CNAMEs at one name
+    if rng.chance(1, 6) {
+        let mut rd = soa_rdata(rng, &apex);
+        let n = rd.len();
+        rd[n - 17] = 7; // another serial
+        adds.push(Add { owner: apex.clone(), rtype: T_SOA, class, ttl: 3600, rdata: rd });
+    }
+    if rng.chance(1, 5) {
+        if let Some(c) = adds.iter().find(|a| a.rtype == T_CNAME).cloned() {
+            let mut d = c.clone();
+            d.rdata = wire(&in_zone(rng, 2));
+            adds.push(d);
+        }
+    }
     // shuffle lightly so that apex records are not always first
     for i in (1..adds.len()).rev() {
         if rng.chance(1, 3) {
@@ -470,7 +484,7 @@ fn random_zone(rng: &mut Rng, em: &mut Emitter, thorough: bool) {
     }
     let mut names: Vec<Labels> = names.into_iter().collect();
     // quick tier: a sample
-    let cap = if thorough { 400 } else { 60 };
+    let cap = if thorough { 150 } else { 60 };
     while names.len() > cap {
         let i = rng.below(names.len());
         names.swap_remove(i);
@@ -497,15 +511,16 @@ fn random_zone(rng: &mut Rng, em: &mut Emitter, thorough: bool) {
             s2.emit(em, &["n".to_string(), "r".to_string(), "v".to_string()], 8);
         }
     }
-    sess.emit(em, &steps, 40);
+    sess.emit(em, &steps, 64);
     if !unconstrained.is_empty() {
-        sess.emit(em, &unconstrained, 40);
+        sess.emit(em, &unconstrained, 64);
     }
 }
 
-/// EXHAUSTIVE: every set of at most `k` records out of a 30-record universe over the labels
-/// {a, b, *} below the apex `z.`; every name of depth ≤ 3 over {a, b, *, x} queried with both
-/// `search_below_cuts` values, three types, lookup_addrs and lookup_all; plus iteration,
+/// EXHAUSTIVE: every set of at most `k` records out of a 24-record universe over the labels
+/// {a, b, *} below the apex `z.` (6 owners × {A, NS into the zone, NS out of the zone, CNAME});
+/// every name of depth ≤ 2 over {a, b, *, x} and every child of a universe owner, queried with
+/// both `search_below_cuts` values (two types, lookup_addrs, lookup_all); plus iteration,
 /// soa/ns and validation.
 fn exhaustive(em: &mut Emitter, k: usize, glue: char, class: u16) {
     let apex: Labels = vec![b"z".to_vec()];
@@ -523,13 +538,11 @@ fn exhaustive(em: &mut Emitter, k: usize, glue: char, class: u16) {
         universe.push(Add { owner: o.clone(), rtype: T_NS, class, ttl: 60, rdata: wire(&cat(&[b"b", b"a"], &apex)) });
         universe.push(Add { owner: o.clone(), rtype: T_NS, class, ttl: 60, rdata: wire(&vec![b"q".to_vec()]) });
         universe.push(Add { owner: o.clone(), rtype: T_CNAME, class, ttl: 60, rdata: wire(&cat(&[b"a"], &apex)) });
-        universe.push(Add { owner: o.clone(), rtype: T_TXT, class, ttl: 60, rdata: vec![1, b'x'] });
     }
-    // query names: depth ≤ 3 over {a, b, *, x}
     let labs: [&[u8]; 4] = [b"a", b"b", b"*", b"x"];
     let mut names: Vec<Labels> = vec![apex.clone()];
     let mut frontier: Vec<Labels> = vec![apex.clone()];
-    for _ in 0..3 {
+    for _ in 0..2 {
         let mut next = Vec::new();
         for n in &frontier {
             for l in labs {
@@ -539,9 +552,16 @@ fn exhaustive(em: &mut Emitter, k: usize, glue: char, class: u16) {
         names.extend(next.iter().cloned());
         frontier = next;
     }
+    for o in &owners {
+        if o.len() == 3 {
+            for l in labs {
+                names.push(cat(&[l], o));
+            }
+        }
+    }
     let mut steps: Vec<String> = Vec::new();
     for n in &names {
-        query_steps(n, &[T_A, T_NS, T_TXT], &["00", "01"], &mut steps);
+        query_steps(n, &[T_A, T_NS], &["00", "01"], &mut steps);
     }
     for s in ["n", "r", "s", "t", "v"] {
         steps.push(s.to_string());
@@ -551,7 +571,7 @@ fn exhaustive(em: &mut Emitter, k: usize, glue: char, class: u16) {
     fn rec(universe: &[Add], idx: &mut Vec<usize>, start: usize, k: usize, apex: &Labels, class: u16, glue: char, steps: &[String], em: &mut Emitter) {
         if !idx.is_empty() {
             let sess = Session { apex: apex.clone(), class, glue, adds: idx.iter().map(|i| universe[*i].step()).collect() };
-            sess.emit(em, steps, 64);
+            sess.emit(em, steps, 128);
         }
         if idx.len() == k {
             return;
@@ -584,7 +604,7 @@ pub fn gen(rng: &mut Rng, thorough: bool, em: &mut Emitter) {
         exhaustive(em, 2, 'n', 1);
     }
     // random zones
-    let n = if thorough { 4000 } else { 250 };
+    let n = if thorough { 1500 } else { 250 };
     for _ in 0..n {
         random_zone(rng, em, thorough);
     }
